@@ -1556,8 +1556,37 @@ def api_pruning_cases(E, ctx):
             Case("node-to-prune-is-missing", raises=objs.exc(E, "ValidationError"), modifies=[db, rc, (s, "root_hash")])]
 
 
+def init_pruning_setup(E):
+    o = Obj(objs.cls_of(E, "trie.hexary", "HexaryTrie"), {})
+    db = E.fresh_dict("db", "bytes", "bytes")
+    x = z3.Const("x!empty", SeqI)
+    E.assume(mk_bool(z3.ForAll([x], z3.Not(z3.Select(db.has, x)))))        # started on an empty database
+    BNH = E.loader.load("trie.constants").ns["BLANK_NODE_HASH"]
+    return {"self": o, "db": db, "root_hash": BNH, "prune": True, "ref_count": None}
+
+
+def init_pruning_cases(E, ctx):
+    s = ctx.self
+
+    def post():
+        f = s.fields
+        try:
+            rc, db = f["_ref_count"], f["db"]
+            E.dict_type(rc, b"", 0)
+            root = HM.bytes_of(f["root_hash"])
+            return [("exact-from-the-start", mk_bool(exact_at(E, db.has, rc.has, rc.val, root, HG0))),
+                    ("pruning", f["is_pruning"] is True), ("no-pending-prunes", f["_pending_prune_keys"] is None),
+                    ("same-database", db is ctx.db)]
+        except (KeyError, Unsupported) as e:
+            return [("object-initialised (%r)" % (e,), False)]
+    return [Case("fresh-pruning-trie", returns=lambda: None, post=post, modifies=[s])]
+
+
 def _register_api_write(reg):
     H = HEX + ":HexaryTrie."
+    reg.add("hexary_prune", Contract(H + "__init__#pruning-on-empty-db", ["self", "db", "root_hash", "prune", "ref_count"],
+                                     init_pruning_cases, setup=init_pruning_setup, props=("C06",), callee=False,
+                                     target=H + "__init__"))
     reg.add("hexary_prune", Contract(H + "set#pruning", ["self", "key", "value"], api_pruning_cases,
                                      setup=api_pruning_setup(True), props=("C06", "C01", "C07"), callee=False, target=H + "set"))
     reg.add("hexary_prune", Contract(H + "delete#pruning", ["self", "key"], api_pruning_cases,
